@@ -41,6 +41,7 @@ pub fn prop() -> Prop {
         independent: &["harness algebra for vk + G*r"],
         ref_sample: |_| 0,
         required_probes: &["session_rerandomized", "seed_tamper_named", "commitment_tamper_named", "explicit_zero_randomizer", "explicit_randomizer", "cheater_under_randomization", "threshold_under_randomization", "taproot_rerandomized"],
+        prepare: None,
     }
 }
 
